@@ -182,7 +182,12 @@ func argTuples(m reflect.Method, env *callEnv) (tuples [][]reflect.Value, descr 
 	return
 }
 
-func invoke(fs filesystem.FS, m reflect.Method, args []reflect.Value, descr string) (res callResult) {
+// bind returns the method of a filesystem object as a callable value.
+func bind(fs filesystem.FS, m reflect.Method) reflect.Value {
+	return reflect.ValueOf(fs).MethodByName(m.Name)
+}
+
+func invoke(bound reflect.Value, m reflect.Method, args []reflect.Value, descr string) (res callResult) {
 	res.Method = m.Name
 	res.Args = descr
 	defer func() {
@@ -190,7 +195,7 @@ func invoke(fs filesystem.FS, m reflect.Method, args []reflect.Value, descr stri
 			res.Panic = p
 		}
 	}()
-	out := reflect.ValueOf(fs).MethodByName(m.Name).Call(args)
+	out := bound.Call(args)
 	for _, o := range out {
 		switch {
 		case o.Type() == errType:
